@@ -249,9 +249,61 @@ def slStep (kc : Consts α) (c : TrConsts α) (sqrt : α → α) (g rho : α) (t
 def walkCond (ft1000 offsetEnd : α) (s : TrainState α) : Bool :=
   decide (s.r.offset < offsetEnd - ft1000) || (decide (s.r.offset < offsetEnd) && neb s.r.speed 0)
 
+/-- when the `ensure!` after `self.step()?` in the loop of `walk_internal` FAILS (fix c76dec1): the train stood still for
+    a whole step (`speedPrev` = `self.state.speed` read before the step, `s` = the state after it), is told to keep
+    standing still, and is still before the 1000 ft stopping window.  The Rust condition is `!(…)` of this. -/
+def walkStuck (ft1000 offsetEnd speedPrev : α) (s : TrainState α) : Bool :=
+  eqb speedPrev 0 && eqb s.r.speed 0 && eqb s.k.speedTarget 0 && decide (s.r.offset < offsetEnd - ft1000)
+
 /-- `get_scaling_factor(annualize)`; `c36525 = 365.25`, `days` already cast to float -/
 def scalingFactor (c36525 : α) (annualize : Bool) (days : Option α) : α :=
   if annualize then (match days with | some d => c36525 / d | none => c36525) else 1
+
+/-! ### the loop of `walk_internal`
+
+    ```
+    while cond(state) {
+        let speed_prev = self.state.speed;
+        self.step()?;
+        ensure!(!stuck(speed_prev, state), "… cannot reach its destination");     // added by fix c76dec1
+    }
+    Ok(())
+    ```
+    generic in the simulation state `S` and in `step`; the fuel bounds the number of `step()` calls. -/
+
+/-- the loop AFTER the fix.  `.ok (some s)`: the loop was left at `s` (`Ok(())`); `.ok none`: the fuel ran out with the
+    condition still true; an `Err` / a panic of `step` is passed on; `.err "stopped-short"`: the `ensure!` failed on the
+    pair (state before the step, state after it). -/
+def walkLoop {S : Type} (step : S → Res S) (cond : S → Bool) (stuck : S → S → Bool) : Nat → S → Res (Option S)
+  | 0, s => if cond s then .ok none else .ok (some s)
+  | n + 1, s =>
+    if cond s then
+      match step s with
+      | .ok s' => if stuck s s' then .err "stopped-short" else walkLoop step cond stuck n s'
+      | .err e => .err e
+      | .panic e => .panic e
+    else .ok (some s)
+
+/-- the loop BEFORE the fix: `while cond(state) { self.step()?; }` -/
+def walkLoopOld {S : Type} (step : S → Res S) (cond : S → Bool) : Nat → S → Res (Option S)
+  | 0, s => if cond s then .ok none else .ok (some s)
+  | n + 1, s =>
+    if cond s then
+      match step s with
+      | .ok s' => walkLoopOld step cond n s'
+      | .err e => .err e
+      | .panic e => .panic e
+    else .ok (some s)
+
+/-- `walk_internal` after the fix, over any simulation state that contains the train state (`st`):
+    the loop with `walkCond` and `walkStuck` (the previous speed is the speed of the state before the step) -/
+def slWalk {S : Type} (ft1000 offsetEnd : α) (st : S → TrainState α) (step : S → Res S) : Nat → S → Res (Option S) :=
+  walkLoop step (fun x => walkCond ft1000 offsetEnd (st x))
+    (fun a b => walkStuck ft1000 offsetEnd (st a).r.speed (st b))
+
+/-- `walk_internal` before the fix -/
+def slWalkOld {S : Type} (ft1000 offsetEnd : α) (st : S → TrainState α) (step : S → Res S) : Nat → S → Res (Option S) :=
+  walkLoopOld step (fun x => walkCond ft1000 offsetEnd (st x))
 
 end
 end Altrios.Tr
